@@ -1,3 +1,4 @@
+import Amqp.Gen.Close
 /-
   C14 model: the client's consumer bookkeeping (`BaseChannel._consumer_tags`,
   `Channel._consumer_callbacks`) against the broker's consumer table, with any number of
@@ -78,7 +79,11 @@ def step (s : S) : Act → Option S
     match s.inflight with
     | x :: rest => some { s with inflight := rest, tags := s.tags.filter (· ≠ x) }
     | [] => none
-  | .dispatch tag => some { s with dispatched := s.dispatched ++ [(tag, s.callbacks.lookup tag)] }
+  | .dispatch tag =>
+    -- `process_data_events`: if the tag has no callback yet and the source waits for the channel lock,
+    -- the look-up happens only once the lock is free (the thread is blocked meanwhile)
+    if Gen.Close.dispatchWaitsForLock ∧ (s.callbacks.lookup tag).isNone ∧ s.lock.isSome then none
+    else some { s with dispatched := s.dispatched ++ [(tag, s.callbacks.lookup tag)] }
 
 def run (s : S) : List Act → Option S
   | [] => some s
